@@ -17,9 +17,9 @@ from ..core import Rejected, Sub, Violation
 RULE = (
     "Hypothesis generates key columns (n <= 40, 1-3 keys, types int/float/str/bool/datetime/categorical, nulls in "
     "any key position, first-appearance order random / sorted / block-confined / sorted-prefix) and a route: plain, "
-    "categorical, boolean, RangeIndex(start, step), Arrow (pa.Array, pa.ChunkedArray with arbitrary incl. empty "
+    "categorical, Arrow dictionary arrays (incl. chunked with per-chunk dictionaries), boolean, RangeIndex(start, step), Arrow (pa.Array, pa.ChunkedArray with arbitrary incl. empty "
     "chunks, Arrow-backed pandas, polars), fully monotonic, partially monotonic (sorted prefix > n/4) and chunk-wise "
-    "(threshold scaled down from the harness, 1-6 chunks), sort on/off; plus the module functions factorize_1d, "
+    "(threshold scaled down from the harness, 1-6 chunks), sort on/off, optionally after an earlier masked/unmasked reduction on the same object; plus the module functions factorize_1d, "
     "factorize_2d (array and dict tracker) and monotonic_factorization.  All 2-key tables with n <= 5 (quick: 4) "
     "over {a,b,null} x {x,y,null} are enumerated for factorize_2d with both trackers.  Non-trivial = >= 2 distinct "
     "labels and (a null somewhere, or a non-plain route, or several keys).  Distinct = case hash (sampled) or by "
@@ -95,12 +95,14 @@ def gb_case(draw, variant):
     route = draw(st.sampled_from({
         "a": ["plain", "series", "cat", "multi", "range"],
         "b": ["mono", "partial", "chunkwise"],
-        "c": ["arrow", "prechunked"],
+        "c": ["arrow", "prechunked", "arrowdict"],
     }[variant]))
     n = draw(st.sampled_from([0, 1, 2, 3, 4, 5, 6, 8, 10, 13, 16, 24, 40]))
     if route == "prechunked":
         n = max(n, 1)  # an Arrow ChunkedArray without rows is not considered a key column
-    case = {"route": route, "n": n, "sort": draw(st.sampled_from([True, True, False]))}
+    case = {"route": route, "n": n, "sort": draw(st.sampled_from([True, True, False])),
+            "prior": draw(st.sampled_from(["none", "none", "masked_sum", "masked_size", "sum"])),
+            "prior_mask": draw(st.lists(st.booleans(), min_size=40, max_size=40))}
     if route == "range":
         case["range"] = {"start": draw(st.integers(-5, 5)), "step": draw(st.sampled_from([1, 1, 2, 3, -1, -2])), "n": n}
         return case
@@ -129,6 +131,16 @@ def gb_case(draw, variant):
         case["kc"] = draw(st.sampled_from(["np", "series"]))
         case["threshold"] = draw(st.integers(1, n))
         case["key_chunks"] = draw(st.integers(1, 6))
+        return case
+    if route == "arrowdict":
+        n = max(n, 1)
+        case["n"] = n
+        case["keys"] = [draw(S.key_column(n, types=("int", "str", "float")))]
+        case["kc"] = draw(st.sampled_from(["pa_dict", "pa_dict_chunked", "pd_arrow_dict_chunked"]))
+        k = draw(st.integers(1, 4))
+        cuts = sorted(draw(st.lists(st.integers(0, n), min_size=k - 1, max_size=k - 1)))
+        b = [0] + cuts + [n]
+        case["keys"][0]["chunks"] = [y - x for x, y in zip(b[:-1], b[1:])]
         return case
     if route in ("arrow", "prechunked"):
         case["keys"] = [draw(S.key_column(n, types=("int", "float", "str", "dt")))]
@@ -172,7 +184,7 @@ def gb_check(case, ctx):
     rows = key_rows_of(case)
     keys = render_keys(case)
     shim = gbops.Shims(threshold=case.get("threshold"), key_chunks=case.get("key_chunks"))
-    rej = rejections.key_rows(case.get("kc"), case["keys"][0]) if route in ("arrow", "prechunked") else []
+    rej = rejections.key_rows(case.get("kc"), case["keys"][0]) if route in ("arrow", "prechunked", "arrowdict") else []
     try:
         _gb_check(case, ctx, route, rows, keys, shim)
     except Exception as e:  # noqa
@@ -186,12 +198,22 @@ def _gb_check(case, ctx, route, rows, keys, shim):
     with shim:
         gb = GroupBy(keys, sort=case["sort"])
         chunked0 = gb.key_is_chunked
+        prior = case.get("prior", "none")
+        if prior != "none" and case["n"] > 0:
+            # an earlier (masked) operation on the same object must not disturb the views read below
+            m = np.array((case["prior_mask"] * 2)[:case["n"]], dtype=bool)
+            if prior == "masked_sum":
+                gb.sum(np.arange(case["n"], dtype=float), mask=m)
+            elif prior == "masked_size":
+                gb.size(mask=m)
+            else:
+                gb.sum(np.arange(case["n"], dtype=float))
         codes = logical_codes(gb)
         labels = labels_from_index(gb.result_index)
         distinct = {r for r in rows if r is not None}
         has_null = any(r is None for r in rows)
         nt = len(distinct) >= 2 and (has_null or route not in ("plain",) or len(case.get("keys", [0])) > 1)
-        ctx.seen("gb", case, nt, [f"route:{route}", f"chunked:{chunked0}", f"null:{has_null}", f"sort:{case['sort']}",
+        ctx.seen("gb", case, nt, [f"route:{route}", f"prior:{case.get('prior')}", f"chunked:{chunked0}", f"null:{has_null}", f"sort:{case['sort']}",
                                   "kc:" + str(case.get("kc"))] + [f"keytype:{k['t']}" for k in case.get("keys", [])])
         check_partition(rows, codes, labels, "codes")
         if gb.ngroups != len(labels):
